@@ -375,8 +375,8 @@ class Judge:
                 for mb in (m or []):
                     if header_is_perm_of(h, mb["groups"]):
                         group = mb["tags"]
-                tags = group if (group is not None or m is not None) else [t for t, _ in c["recs"]]
-                tags = tags or []
+                # (a header the model does not know is reported as a disagreement below; classify by the input)
+                tags = group if group is not None else sorted({t for t, _ in c["recs"]})
                 if has_empty_stem_clash(tags):
                     sig = "header-refused:empty-stem"
                 elif "Too many hosts" in info and len(tags) > 16384:
